@@ -425,7 +425,16 @@ fn name_candidates(seed: u64, extra: usize) -> Vec<String> {
         let first = c.next().unwrap().to_uppercase().to_string();
         v.push(format!("{}{}", first, c.as_str()));
     }
-    for extra in ["android", "iffy", "donut", "order", "notify", "nullable", "trueish", "falsey", "outputs", "returned", "thence", "elsewhere",
+    // operator words that are not reserved (via / into / where), `inf`, and the dot-free spellings of other tokens
+    for w in ["via", "into", "where", "inf", "infinity", "inputs", "constants"] {
+        for suf in ["x", "s", "1", "_", "_count", "ble", "duct", "abouts", "ed"] {
+            v.push(format!("{}{}", w, suf));
+        }
+        for pre in ["x", "_", "un"] {
+            v.push(format!("{}{}", pre, w));
+        }
+    }
+    for extra in ["android", "iffy", "orbit", "viable", "whereabouts", "intoxicated", "andromeda", "notable", "dozen", "thenceforth", "donut", "order", "notify", "nullable", "trueish", "falsey", "outputs", "returned", "thence", "elsewhere",
         "viaduct", "intox", "wherever", "infinite", "information", "constant", "input", "_", "__", "_1", "a1b2", "A", "Zz_9"] {
         v.push(extra.to_string());
     }
@@ -517,6 +526,25 @@ fn part_names(ctx: &Ctx, sink: &mut Sink) {
                 break;
             }
         }
+        // the name at the START of a statement that is not the first line of its program, and as a bare do-block statement:
+        // the whole text is parsed as one program, so a line that begins with the name must not be read as the
+        // continuation of the line before it
+        {
+            let prog = format!(
+                "zz_a = 10\n{n} = 7\nzz_b = {n} + 1\n{n}\nzz_c = [1, 2]\n{n} == 7\nzz_e = true\n{n}_tail = 3\nzz_d = do {{\n  zz_t = 1\n  {n}\n  zz_u = 2\n  {n}_local = zz_u\n  return {n} + zz_t + {n}_local\n}}",
+                n = name
+            );
+            let s3 = Sess::new();
+            let expected = vec![ROut::Ok(RVal::num(10.0)), seven.clone(), ROut::Ok(RVal::num(8.0)), seven.clone(), ROut::Ok(RVal::List(vec![RVal::num(1.0), RVal::num(2.0)])), ROut::Ok(RVal::Bool(true)), ROut::Ok(RVal::Bool(true)), ROut::Ok(RVal::num(3.0)), ROut::Ok(RVal::num(10.0))];
+            let got: Vec<ROut> = match s3.run(&prog, false) {
+                Ok(outs) => outs.iter().map(|o| s3.rout(&o.out)).collect(),
+                Err(e) => vec![ROut::Err(format!("PARSE: {}", e))],
+            };
+            let same = got.len() == expected.len() && got.iter().zip(expected.iter()).all(|(g, e)| g.agrees(e));
+            if !same {
+                sink.viol(&format!("name unusable {}", name_class(name)), "a statement that starts with a plain name on a later line of a program is not read as its own statement", json!({"name": name, "position": "statement-start-after-another-statement", "program": prog, "got": got.iter().map(|g| g.show()).collect::<Vec<_>>(), "expected_statements": expected.len()}));
+            }
+        }
         // as a parameter and as a do-block local, in a fresh session (no outer binding)
         let s2 = Sess::new();
         for (pos, src, exp) in [
@@ -567,8 +595,60 @@ fn subst_name(t: &str, name: &str) -> String {
     out
 }
 
+/// Statement separation: a program is its statements, one per line. Parsing the whole text gives exactly the trees the
+/// statements give when parsed alone (only statements that start with a letter are joined: a line that starts with an
+/// operator continues the line before it by design).
+fn part_separation(ctx: &Ctx, sink: &mut Sink) {
+    let n = ctx.budget(6_000, 100_000);
+    for i in 0..n {
+        if !ctx.mine(i) {
+            continue;
+        }
+        let mut r = Rng::derive(ctx.seed, "c10-separation", i);
+        let depth = 1 + r.below(4);
+        let (stmts, _) = {
+            let mut g = Gen::new(&mut r, GenCfg { inputs: true, odd_strings: i % 3 == 0, ..GenCfg::default() });
+            g.program(2 + r_below(i, 5), depth, &NAMES)
+        };
+        let mut texts: Vec<String> = Vec::new();
+        let mut trees: Vec<H> = Vec::new();
+        for st in &stmts {
+            let t = print_min(st);
+            if !t.chars().next().map(|c| c.is_ascii_alphabetic()).unwrap_or(false) {
+                continue;
+            }
+            if let Ok(h) = parse1(&t) {
+                texts.push(t);
+                trees.push(h);
+            }
+        }
+        if texts.len() < 2 {
+            continue;
+        }
+        let sep = if i % 4 == 1 { "\n\n" } else { "\n" };
+        let prog = texts.join(sep);
+        sink.case(&format!("sep|{}", prog), true);
+        match crate::rt::parse_program(&prog) {
+            Ok(whole) if whole == trees => {}
+            Ok(whole) => sink.viol(
+                "statement-separation",
+                "a program parsed as a whole is not the sequence of its statements parsed one by one",
+                json!({"program": prog, "statements": texts.len(), "statements_in_whole": whole.len(), "first_difference": whole.iter().zip(trees.iter()).position(|(a, b)| a != b)}),
+            ),
+            Err(e) => sink.viol("statement-separation", "a program made of statements that parse one by one does not parse as a whole", json!({"program": prog, "error": e.chars().take(300).collect::<String>()})),
+        }
+    }
+}
+
+fn r_below(i: u64, n: u64) -> usize {
+    (i % n) as usize
+}
+
 pub fn run(ctx: &Ctx, sink: &mut Sink) {
     let part = ctx.opt("part").unwrap_or("all").to_string();
+    if part == "all" || part == "separation" {
+        part_separation(ctx, sink);
+    }
     if part == "all" || part == "table" {
         part_table(ctx, sink);
     }
